@@ -88,6 +88,20 @@ def wl_plain(ctx, rng, case):
                         if kb not in shadow:
                             shadow.append(kb)
                     ctx.count("adds_from_a_reused_buffer", len(batch))
+                elif rng.random() < 0.12:
+                    # hash a BATCH of keys first, insert afterwards (with a look-up in between): each list handed out by hashes() stays what
+                    # it was while other keys are hashed
+                    batch = [key] + rng.sample(keys, min(len(keys), rng.randint(1, 3)))
+                    case.op("hash-batch-then-add_alt", batch)
+                    held = [(kb, f.hashes(kb)) for kb in batch]
+                    copies = [list(h) for _, h in held]
+                    f.check(rng.choice(keys))
+                    for (kb, h), cp in zip(held, copies):
+                        ctx.check(list(h) == cp, "a hash list handed out earlier changed while other keys were hashed", key=kb)
+                        f.add_alt(h)
+                        if kb not in shadow:
+                            shadow.append(kb)
+                    ctx.count("batches_hashed_first_and_added_afterwards")
                 elif rng.random() < 0.8:
                     case.op("add", key)
                     f.add(key)
